@@ -26,7 +26,7 @@ type c04Mut struct {
 	Field string `json:"field"` // field it applies to
 	A     int    `json:"a"`     // position / amount
 	B     int    `json:"b"`
-	Wire  bool   `json:"wire"` // applied to the protobuf message and mapped back
+	Wire  bool   `json:"wire"`  // applied to the protobuf message and mapped back
 	Trust bool   `json:"trust"` // the receiving node trusts the sealing node (funds test exempt - verification is not)
 }
 
@@ -600,6 +600,9 @@ func TestC04(t *testing.T) {
 	})
 	t.Run("random", func(t *testing.T) {
 		rapid.Check(t, func(rt *rapid.T) {
+			if pastSoftDeadline(st) {
+				return
+			}
 			m := c04Mut{
 				Orig:  rapid.IntRange(0, 3).Draw(rt, "orig"),
 				Op:    rapid.SampledFrom([]string{"flip", "flip", "flip", "pm1", "truncate", "extend", "empty", "shift", "swap", "resign", "strip", "addr", "alias"}).Draw(rt, "op"),
